@@ -8,9 +8,10 @@ from pyvc.interp import get_attr, PyExc, exc_class
 from pyvc.libmodels import int_to_str, str_replace_all
 
 LEVEL = 'other'
+LEAN_LEMMAS = ['quote_roundtrip']
 TRUSTED = ['CQL literal grammar (Cassandra Lexer.g): STRING_LITERAL quoted with \' and \'\' for a quote; INTEGER -?[0-9]+; FLOAT incl. exponent, NaN, Infinity; HEXNUMBER 0x[0-9a-f]*; UUID; collection literals [..] {..} {k: v} (..)',
            'E-STR (str.replace replaces every occurrence, str(int) is the decimal numeral), E-HEX (hexlify), E-REPR (repr(float) is the shortest string that reads back as the same binary64)',
-           'lemma L1 of C27 (a quote-doubled text lexes back to the original) - bounded there',
+           'lemma L1 of C27 (a quote-doubled text lexes back to the original): quote_roundtrip in lemmas/Lemmas.lean, elaborated by lean on every run; the identification of str.replace_all / the lexer with esc / unesc is assumed as in C27',
            'deductive part: text (every string), integers, util.Date, datetimes (symbolic instant), float special values, dispatch of subclasses; bytes / floats / decimals / uuids / dates / times / inet / nested '
            'collections and bind_params are compared with the prepared-statement encoding through an independent literal parser on generated values only (bounded stand-in)']
 EXPLANATION = 'string postconditions on the real Encoder.cql_encode_* methods and _encoder_for dispatch; bounded parse-back of rendered literals (nested to depth 3) by an independent CQL literal parser compared with what cqltypes would serialize'
